@@ -21,8 +21,8 @@ def run(tier):
     acc = Acc()
     # ---- specific codes
     for ev in THROWS:
-        for g in ('M', 'F'):
-            for label in PRODUCED + OTHER:
+        for g in ('M', 'F', 'm', 'f', 'Male', 'Female', 'MALE', 'female', ' F', 'M ', 'Men', 'Women', 'W', 'X', ''):
+            for label in (PRODUCED + OTHER if g in ('M', 'F') else PRODUCED[::2] + OTHER[:4]):
                 acc.n += 1
                 case = dict(event=ev, gender=g, age_group=label)
                 produced = label in PRODUCED
